@@ -89,6 +89,49 @@ def _arm_blocks(fn, conds, variant, scrut_pred):
     return out, edges
 
 
+def match_join(fn, switch_block):
+    """the block where the arms of the match at `switch_block` meet again: the first block every live arm reaches."""
+    succs = [s for s in fn.succs(switch_block) if fn.term(s) and fn.term(s)["k"] != "unreachable"]
+    if not succs:
+        return None
+    common = None
+    for s in succs:
+        r = fn.reachable(s)
+        if not any(fn.term(x) and fn.term(x)["k"] == "return" for x in r):
+            continue                      # an arm that never returns normally (diverges) does not constrain the join
+        common = set(r) if common is None else common & r
+    if not common:
+        return None
+    for j in sorted(common):
+        if common <= fn.reachable(j):
+            return j
+    return None
+
+
+def arm_region(fn, conds, variant, scrut_pred):
+    """(exclusive blocks, region blocks, edges): `exclusive` = dominated by the `is variant` edge (where an or-pattern
+    alternative binds its fields); `region` = everything run for this variant up to where the match's arms meet
+    (so the shared body of merged `A {x} | B {x} => ..` arms belongs to the region of both A and B)."""
+    excl, edges = _arm_blocks(fn, conds, variant, scrut_pred)
+    region = set()
+    for a, s in edges:
+        j = match_join(fn, a)
+        stop = fn.reachable(j) if j is not None else set()
+        region |= {b for b in fn.reachable(s) if b not in stop}
+    return excl, region, edges
+
+
+def arm_value(fn, res, e, excl):
+    """the value of `e` inside one arm: a binding introduced by an or-pattern (`A {f: x} | B {g: x}`) is a
+    multi-definition local; pick the definition made in this variant's exclusive blocks."""
+    pe = A.peel(e)
+    if pe[0] == "phi" and len(pe) > 2:
+        mine = [d for d in fn.defs().get(pe[2], []) if d[0] in excl and d[2] != "partial"]
+        if len(mine) == 1:
+            return A.peel(res._def_expr(mine[0], 0))
+    return pe
+
+
 def _order(fn, blocks):
     return sorted(blocks, key=lambda b: sum(1 for x in blocks if x != b and fn.dominates(x, b)))
 
@@ -101,29 +144,30 @@ def writer_layout(prog):
     out = {}
     variants = [v["name"] for v in prog.adt(RTWD)["variants"]]
     for v in variants:
-        blocks, edges = _arm_blocks(fn, c, v, lambda x: A.path_str(x) == "param1.rtype_with_data")
+        excl, blocks, edges = arm_region(fn, c, v, lambda x: A.path_str(x) == "param1.rtype_with_data")
         seq = []
+        fld = lambda x: A.last_field(arm_value(fn, r, x, excl))
         for b in _order(fn, [b for b in blocks if fn.term(b)["k"] == "call"]):
             t = fn.term(b)
             n = t.get("resolved") or t.get("callee") or ""
             e = r.call_expr(t, b)
             if n == SER + "<impl dns_types::protocol::types::DomainName>::serialise":
                 comp = A.peel(e[2][2])
-                seq.append(("name" if comp[0] == "const" and comp[2] is False else "name(compressed)", A.last_field(e[2][0])))
+                seq.append(("name" if comp[0] == "const" and comp[2] is False else "name(compressed)", fld(e[2][0])))
             elif n == WB + "write_u16":
-                seq.append(("u16", A.last_field(e[2][1])))
+                seq.append(("u16", fld(e[2][1])))
             elif n == WB + "write_u32":
-                seq.append(("u32", A.last_field(e[2][1])))
+                seq.append(("u32", fld(e[2][1])))
             elif n == WB + "write_u8":
-                seq.append(("u8", A.last_field(e[2][1])))
+                seq.append(("u8", fld(e[2][1])))
             elif n == WB + "write_octets":
                 a = A.peel_until_call(e[2][1], "octets")
                 if a[0] == "call" and a[1].endswith("Ipv4Addr::octets"):
-                    seq.append(("addr4", A.last_field(a[2][0])))
+                    seq.append(("addr4", fld(a[2][0])))
                 elif a[0] == "call" and a[1].endswith("Ipv6Addr::octets"):
-                    seq.append(("addr16", A.last_field(a[2][0])))
+                    seq.append(("addr16", fld(a[2][0])))
                 else:
-                    seq.append(("octets", A.last_field(e[2][1])))
+                    seq.append(("octets", fld(e[2][1])))
         out[v] = seq
     return out, fn
 
